@@ -44,6 +44,9 @@ def check(ctx):
     ctx.guard("C06-C", widths.rule_min_size_matches_shrink, "C06-C")
     # a cell's allocated width is the sum of the columns it spans plus the separators between them (shared with C02-F)
     ctx.guard("C06-B", widths.rule_stacked_cells_full_width, "C06-B")
+    ctx.rule("C06-F", "every <td>/<th> becomes a cell of its row: td_to_render_tree hands its children to `pending` (which "
+             "always calls the reducer) and its reducer returns Some(TableCell) on every path — an empty cell still occupies its column")
+    ctx.guard("C06-F", rule_f)
     ctx.guard("C06-C", widths.rule_estimate_merge, "C06-C")
 
 
@@ -330,3 +333,27 @@ def rule_e(ctx):
     uo = [(bb, t) for bb, t in td.calls(lambda cd, t: callee_method(t) == "unwrap_or")]
     okc = len(uo) == 1 and (op_const(uo[0][1]["args"][1]) or {}).get("int") == 1
     ctx.check(okc, "C06-E", "td:colspan-parse-or-1", td.span, td.id, "")
+
+
+def rule_f(ctx):
+    F = ctx.facts
+    td = F.one("td_to_render_tree")
+    calls = [(bb, callee_def(t).split("::")[-1]) for bb, t in td.calls(lambda cd, t: cd in ("pending", "pending_noempty", "pending2") or
+                                                                       str(cd).split("::")[-1] in ("pending", "pending_noempty"))]
+    ctx.check([c for _bb, c in calls] == ["pending"], "C06-F", "td:children-through-pending", td.span, td.id,
+              "td_to_render_tree builds its node through %s; pending_noempty would drop a <td></td> and shift the cells to its right" % [c for _b, c in calls])
+    # no other result shape
+    res = sorted({(st.get("rv") or {}).get("variant") for x in td.reachable() for st in td.stmts(x)
+                  if ends((st.get("rv") or {}).get("adt"), "TreeMapResult")})
+    ctx.check(not res, "C06-F", "td:no-direct-result", td.span, td.id, "td_to_render_tree also returns %s directly" % res)
+    cls = [cb for _bb, _i, cb, _o, _f in closure_bodies_created_in(F, td)]
+    if ctx.check(len(cls) == 1, "C06-F", "td:one-reducer", td.span, td.id, ""):
+        cb = cls[0]
+        rets = []
+        for x in cb.reachable():
+            for st in cb.stmts(x):
+                rv = st.get("rv") or {}
+                if st["k"] == "assign" and st["lhs"]["l"] == 0 and not st["lhs"]["p"] and rv.get("agg") == "adt" and ends(rv.get("adt"), "Option"):
+                    rets.append(rv.get("variant"))
+        builds = any((st.get("rv") or {}).get("variant") == "TableCell" for x in cb.reachable() for st in cb.stmts(x))
+        ctx.check(rets == ["Some"] and builds, "C06-F", "td:reducer-always-Some(TableCell)", cb.span, fn_key(cb), "returns %s" % rets)
